@@ -6,7 +6,7 @@ CONSTANTS
   MaxM = 1
   AllowArm = FALSE
   Patched = TRUE
-  Families <- FamThorough
+  Families <- FamNestGateThorough
 SPECIFICATION ImplShapesSpec
 INVARIANT RcExact
 INVARIANT RootedIffExternal
